@@ -16,8 +16,25 @@ fn main() {
     let mut out = std::io::BufWriter::new(out.lock());
     match args.get(1).map(|s| s.as_str()) {
         Some("play") => {
-            let text = std::fs::read_to_string(&args[2]).expect("script");
             let mut p = Player::new();
+            if args[2] == "-" {
+                // interactive: one op per stdin line, result flushed at once
+                for line in std::io::stdin().lock().lines() {
+                    let line = line.unwrap();
+                    if line.trim().is_empty() {
+                        continue;
+                    }
+                    let op: J = serde_json::from_str(&line).unwrap_or(J::Null);
+                    let mut r = p.exec_caught(&op);
+                    if r["r"] == "panic" {
+                        r["loc"] = json!(last_panic_loc());
+                    }
+                    writeln!(out, "{}", r).unwrap();
+                    out.flush().unwrap();
+                }
+                return;
+            }
+            let text = std::fs::read_to_string(&args[2]).expect("script");
             for line in text.lines() {
                 if line.trim().is_empty() {
                     continue;
